@@ -102,7 +102,7 @@ pub fn run(r: &Req) -> Option<String> {
     let f = r.f.as_str();
     // cross-cutting regimes (every backend / output container / out-buffer path): shared dispatch
     if super::FNS.contains(&f) && r.s("b") != "deque" && crate::rollrun::regime(r) != "types" {
-        return Some(crate::roll1_dispatch!(r, with_xs_all, with_xs_f, |view, OC, U, out| crate::roll1_valid_call!(f, view, OC, U, out, w, mp, r).unwrap()));
+        return Some(crate::roll1_dispatch!(r, with_xs_all, with_xs_f, yes, |view, OC, U, out| crate::roll1_valid_call!(f, view, OC, U, out, w, mp, r).unwrap()));
     }
     match r.f.as_str() {
         "ts_vmin" => Some(dispatch!(r, view, O => { let out: Vec<O> = view.ts_vmin(w, mp); ex_toks(&out) })),
@@ -339,6 +339,8 @@ pub fn generate(tier: &str, rng: &mut Rng) -> (Vec<String>, bool) {
             }
         }
     }
+    // the same requests at tiny scales (2^-50, 2^-60): a spread far below any epsilon is still a spread
+    crate::cases::add_scaled(&mut out, 13, &[50, 60], &["xs"]);
     (out, true)
 }
 
